@@ -202,6 +202,26 @@ def run(ctx):
     # thread runs out of stack when the setting is put back): a single request of every kind must leave them as it found them
     _g0 = [("r0", ("rep", 0, None, ("alt", [("lit", "a", False), ("cat", [("lit", "(", False), ("ref", 0), ("lit", ")", False)])], False)), None)]
     _c0, _r0 = G.build(P, _g0)
+    # ... and while it runs: a leaf parser of our own looks at the settings from INSIDE a request on a long input
+    _seen = []
+
+    class _Spy:
+        def lparse(self, source, start):
+            _seen.append((sys.getrecursionlimit(), sys.getswitchinterval(), P.ParseCache.max_cache_size))
+            raise P.ParseError(self, start)
+            yield  # noqa - a generator, as every parser's lparse
+
+    _cs, _rs = G.build(P, [("r0", ("rep", 0, None, ("lit", "a", False)), None)])
+    _rs[0].definition = P.Concatenation(P.Repetition(P.Repeat(0, None), P.Literal("a")), P.Option(_Spy()))
+    for _kind in ("parse", "parse_all", "lparse"):
+        c08.request(P, _rs[0], _kind, "a" * 300, 0)
+    if any(x != settings0 for x in _seen) and rep < 2:
+        found = True
+        rep += 1
+        _bad = [x for x in _seen if x != settings0][0]
+        ctx.report("process-wide settings differ INSIDE a parse request on a 300-character input: %r, outside %r (a concurrent request of another thread sees - and loses - them)" % (_bad, settings0),
+                   {"kind": "process-settings", "grammar": "r0 = *\"a\" [spy]", "request": ["parse", "a*300", 0], "before": list(map(str, settings0)), "after": list(map(str, _bad))},
+                   key="settings:inside")
     for _kind, _src in (("parse", "a((a))a"), ("parse_all", "a(a)"), ("lparse", "((a))"), ("parse", "(" * 60 + ")" * 60)):
         c08.request(P, _r0[0], _kind, _src, 0)
         now = (sys.getrecursionlimit(), sys.getswitchinterval(), P.ParseCache.max_cache_size)
